@@ -100,6 +100,9 @@ CASES = [
 
 def run():
     from .pyvc.run import verify_one
+    from .pyvc import axiom_check
+    if axiom_check.run() != 0:        # the theory axioms evaluated in the intended model (evidence/axioms.json)
+        return 1
     t0 = time.time()
     tmp = tempfile.mkdtemp(prefix="hvselftest.")
     results, ok_all = [], True
